@@ -120,6 +120,13 @@ RULES = {
         "ConstrType::inv_swap): contexts are taken from the repository's own names (enumerator / parameter names beginning with inv). "
         "Broken (the inverse-swap constructor walking forwards) -> the 'inverse' is the permutation itself for every cycle of length >= 3, "
         "so permute(P) followed by permute(P_inv) does not restore the matrix.", 3),
+    "C02.permute-role": (
+        "permute(perm_row, perm_col) of the sparse matrices: the position array of each permutation parameter (P.get_perm_pos(), also of "
+        "P.inverse() / a local copy of it) is subscripted only by indices of the parameter's own dimension - the row permutation by row "
+        "numbers (a loop variable bounded by rows()), the column permutation by column numbers (values read from col_ind() or from an array "
+        "filled from it, a loop variable bounded by columns()); roles of the parameters from their names (row / col). Broken (the inverse of "
+        "perm_row used as the column lookup table) -> permute(pr, pc) behaves as permute(pr, pr); for rectangular matrices the new column "
+        "indices are out of range.", 4),
     "C02.size-pairing": (
         "every array pushed into _elements/_indices is paired, in order, with a push of the same extent into _elements_size/"
         "_indices_size; at every exit the size vector has exactly as many entries as its pointer vector (symbolic lengths through "
@@ -2069,6 +2076,132 @@ def lockstep_rules(ck, fam, seen_fail):
 
 
 # -------------------------------------------------------------------------------------------------
+# permute(perm_row, perm_col): each permutation indexes its own dimension
+# -------------------------------------------------------------------------------------------------
+
+def permute_role_rules(ck, fam, seen_fail):
+    for fn in fam.functions():
+        if fn.name != "permute" or fn.body is None:
+            continue
+        roles = {}
+        for p_ in fn.params:
+            if "Permutation" in (fn.type(p_["t"]) or ""):
+                nm = p_["n"].lower()
+                r = "row" if "row" in nm and "col" not in nm else "col" if "col" in nm and "row" not in nm else None
+                if r:
+                    roles[p_["d"]] = (r, p_["n"])
+        if len(roles) < 2:
+            continue
+        it = L.Interp(fam, fn)
+        key = L.fkey(fn)
+
+        def strip(e):
+            e = L.unwrap(e)
+            while e is not None and e.get("k") in ("Construct", "TempObj") and len(e.get("a", [])) == 1:
+                e = L.unwrap(e["a"][0])
+            return e
+
+        # permutation objects: the parameters and locals initialised / assigned from P.inverse() or copies
+        perm_obj = {d: d for d in roles}          # decl id -> parameter decl id
+        changed = True
+        while changed:
+            changed = False
+            for n in fn.nodes():
+                if n.get("k") == "Var" and n.get("init") is not None and n["d"] not in perm_obj and "Permutation" in (fn.type(n.get("t")) or ""):
+                    srcs = {perm_obj[x["d"]] for x in walk(n["init"]) if x.get("k") == "Ref" and x.get("d") in perm_obj}
+                    if len(srcs) == 1:
+                        perm_obj[n["d"]] = next(iter(srcs))
+                        changed = True
+
+        def perm_of_ptr_expr(e):
+            e = strip(e)
+            if e is not None and e.get("k") == "MCall" and e.get("n") in ("get_perm_pos",) and e.get("obj") is not None:
+                o = L.unwrap(e["obj"])
+                if o.get("k") == "Ref" and o.get("d") in perm_obj:
+                    return perm_obj[o["d"]]
+            return None
+        # definitions of pointer locals holding a position array, in source order
+        defs = {}          # local decl id -> [(node id, parameter decl id or None)]
+        for n in fn.nodes():
+            tgt = src = None
+            if n.get("k") == "Var" and n.get("init") is not None and "*" in (fn.type(n.get("t")) or ""):
+                tgt, src = n["d"], n["init"]
+            elif n.get("k") == "Assign" and n.get("op") == "=" and L.unwrap(n["lhs"]).get("k") == "Ref" and "*" in (fn.ntype(L.unwrap(n["lhs"])) or ""):
+                tgt, src = L.unwrap(n["lhs"])["d"], n["rhs"]
+            if tgt is not None:
+                defs.setdefault(tgt, []).append((n.get("i", 0), perm_of_ptr_expr(src)))
+        # arrays that hold column indices: col_ind() of a matrix, and local arrays filled from such an array
+        def is_colind(b):
+            b = strip(b)
+            if b is None:
+                return False
+            if b.get("k") == "MCall" and b.get("n") in ("col_ind", "_col_ind"):
+                return True
+            if b.get("k") == "Ref" and b.get("d") in col_arrays:
+                return True
+            return False
+        col_arrays = set()
+        for _ in range(3):
+            for n in fn.nodes():
+                if n.get("k") == "Assign" and n.get("op") == "=":
+                    l, r = strip(n["lhs"]), strip(n["rhs"])
+                    if l.get("k") == "Index" and L.unwrap(l["b"]).get("k") == "Ref" and r is not None and r.get("k") == "Index" and is_colind(r["b"]):
+                        col_arrays.add(L.unwrap(l["b"])["d"])
+                if n.get("k") == "Var" and n.get("init") is not None and "*" in (fn.type(n.get("t")) or "") and is_colind(n["init"]):
+                    col_arrays.add(n["d"])
+        # loop variables bounded by rows() / columns()
+        loopdim = {}
+        for n in fn.nodes():
+            if n.get("k") == "For" and n.get("init") is not None and n["init"].get("k") == "Decl" and n["init"].get("vars") and n.get("c") is not None:
+                c = L.unwrap(n["c"])
+                if c.get("k") == "Bin" and c.get("op") in ("<", "<=", "!="):
+                    b = strip(c["rhs"])
+                    if b is not None and b.get("k") == "MCall" and not b.get("a") and (b.get("obj") is None or L.obj_id(b.get("obj")) == "this"):
+                        nm = b.get("n", "").lstrip("_")
+                        if nm in ("rows", "columns"):
+                            loopdim[n["init"]["vars"][0]["d"]] = "row" if nm == "rows" else "col"
+
+        def index_role(idx):
+            idx = strip(idx)
+            if idx is None:
+                return None
+            if idx.get("k") == "Ref" and idx.get("d") in loopdim:
+                return loopdim[idx["d"]]
+            if idx.get("k") == "Index" and is_colind(idx["b"]):
+                return "col"
+            return None
+        found = {}
+        for n in fn.nodes():
+            if n.get("k") != "Index":
+                continue
+            b = strip(n["b"])
+            pd = perm_of_ptr_expr(b)
+            if pd is None and b is not None and b.get("k") == "Ref" and b.get("d") in defs:
+                before = [d_ for d_ in defs[b["d"]] if d_[0] < n.get("i", 0)]
+                if before:
+                    pd = max(before)[1]
+            if pd is None:
+                continue
+            r = index_role(n["idx"])
+            if r is None:
+                continue
+            found.setdefault((pd, r), []).append(n)
+        for (pd, r), uses in sorted(found.items(), key=lambda kv: (kv[0][0], kv[0][1])):
+            prole, pname = roles[pd]
+            ok = prole == r
+            sub = "%s@%s" % (pname, "rows" if r == "row" else "columns")
+            det = "the position array of %s (%s permutation) is subscripted by %s indices at line %s (%s)" % (
+                pname, "row" if prole == "row" else "column", "row" if r == "row" else "column", uses[0].get("l"), render(uses[0])[:50])
+            if not ok:
+                det += ": the %s permutation is applied to the %s - permute(%s) then ignores the other permutation for that dimension; for rectangular matrices the mapped indices are out of range" % (
+                    "row" if prole == "row" else "column", "column indices" if r == "col" else "rows", ", ".join(v[1] for v in roles.values()))
+                if ("prole", key, sub) in seen_fail:
+                    continue
+                seen_fail.add(("prole", key, sub))
+            ck.ob("C02.permute-role", "%s/%s" % (key, sub), ok, det, fn.file, uses[0].get("l"), sample={"function": fn.full, "detail": det})
+
+
+# -------------------------------------------------------------------------------------------------
 # Adjacency::Permutation: order in which the transposition sequence is applied
 # -------------------------------------------------------------------------------------------------
 
@@ -2495,6 +2628,7 @@ def run(tier):
         offset_store_rules(ck, fam, seen_fail)
         cscr_kind_rules(ck, fam, fx, seen_fail)
         lockstep_rules(ck, fam, seen_fail)
+        permute_role_rules(ck, fam, seen_fail)
         if is_driver_tu(fx):
             alias_kernel_rules(ck, fam, fx, seen_fail)
             alias_member_rules(ck, fam, fx, roles_tab, seen_fail)
